@@ -261,6 +261,15 @@ func scan(root string, genPaths []string, o *Obs) {
 				o.BadRecords = append(o.BadRecords, kd+"/"+e.Name())
 				continue
 			}
+			// dependency labels are escaped reversibly in the record (D27 repair): U+FFFD + two hex digits is a raw byte,
+			// U+FFFD "--" is a genuine U+FFFD
+			if len(rv.Deps) > 0 {
+				un := make(map[string]string, len(rv.Deps))
+				for k, v := range rv.Deps {
+					un[unescapeDepKey(k)] = v
+				}
+				rv.Deps = un
+			}
 			o.Records[l] = rv
 		}
 	}
@@ -286,7 +295,7 @@ func scan(root string, genPaths []string, o *Obs) {
 		}
 	}
 	for _, g := range genPaths {
-		if b, err := os.ReadFile(filepath.Join(root, filepath.FromSlash(g))); err == nil {
+		if b, err := os.ReadFile(fsPath(root, g)); err == nil {
 			o.Gens[g] = string(b)
 		}
 	}
@@ -386,7 +395,28 @@ func (c *canon) world(o *Obs) string {
 	sort.Ints(gs)
 	I := o.Index
 	if I == "g" {
-		I += c.labelsSorted(o.IndexLbls)
+		// index.json is JSON: a label that is not valid UTF-8 is listed with U+FFFD for each invalid byte (a listing
+		// file: nothing reads a record through it any more since GC reloads); map such an entry back to the label it stands for
+		lbls := make([]string, len(o.IndexLbls))
+		for i, l := range o.IndexLbls {
+			lbls[i] = l
+			if _, known := c.n.labels[l]; !known && strings.ContainsRune(l, 0xFFFD) {
+				match := ""
+				for k := range c.n.labels {
+					if strings.ToValidUTF8(k, "\uFFFD") == l {
+						if match != "" {
+							match = ""
+							break
+						}
+						match = k
+					}
+				}
+				if match != "" {
+					lbls[i] = match
+				}
+			}
+		}
+		I += c.labelsSorted(lbls)
 	}
 	return fmt.Sprintf("R=%s G=%s T=%d I=%s", R, natList(gs), o.Temps, I)
 }
@@ -771,7 +801,7 @@ func (r *runner) cleanBuild(root string, p *Proj, target string) (*Obs, error) {
 	}
 	// a from-scratch build starts without generated files
 	for _, g := range allGens(p) {
-		os.Remove(filepath.Join(twin, filepath.FromSlash(g)))
+		os.Remove(fsPath(twin, g))
 	}
 	o, err := r.runChild(childSpec{Root: twin, Op: "build", Target: target}, false)
 	if err != nil {
@@ -822,4 +852,30 @@ func (r *runner) indexLoad(root string) (int, string, error) {
 		}
 	}
 	return o.Exit, msg, nil
+}
+
+func unescapeDepKey(s string) string {
+	const esc = "\uFFFD"
+	if !strings.Contains(s, esc) {
+		return s
+	}
+	var b strings.Builder
+	for i := 0; i < len(s); {
+		if strings.HasPrefix(s[i:], esc) && i+len(esc)+2 <= len(s) {
+			arg := s[i+len(esc) : i+len(esc)+2]
+			if arg == "--" {
+				b.WriteString(esc)
+				i += len(esc) + 2
+				continue
+			}
+			if v, err := strconv.ParseUint(arg, 16, 8); err == nil {
+				b.WriteByte(byte(v))
+				i += len(esc) + 2
+				continue
+			}
+		}
+		b.WriteByte(s[i])
+		i++
+	}
+	return b.String()
 }
